@@ -6,6 +6,8 @@
    anchor_size > 0; its tie-break is implementation-defined), every rng.permutation(ids)
    answer (ids), the (empty) rng.choice for control group ids, and every
    rng.choice(eligible_plate_names, n, replace=True) answer (names).
+   The array offered to the last kind of choice depends on the earlier answers, so the model itself
+   refuses an answer outside the offered array (tag 94; numpy's choice always answers from it).
    Tags: 3 numpy ValueError / ZeroDivisionError (no group can be formed), 6 "single treatment
    experiments ... should be filtered" ValueError, 90-92 oracle stream problems (see Retro.v).
    No proofs here. *)
@@ -76,6 +78,7 @@ Fixpoint pw_singles (samples : list name) (srows crows_out : list row) (names : 
         dor d <- take_names ds;
         let '(asg, ds1) := d in
         if negb (length asg =? vcount v) then Err 91%Z
+        else if negb (forallb (fun a => name_mem a eligible) asg) then Err 94%Z
         else pw_singles rest srows crows_out (assign_v v asg names) ds1
   end.
 
